@@ -509,7 +509,7 @@ where
 
 const DEADLINE_SUBS: &[&str] = &[
     "graphs", "regression", "wide-index", "medium", "conversion", "conversion-large", "conversion-wide", "encoder", "encoder-large", "encoder-wide", "model", "degenerate-shapes", "roundtrip",
-    "roundtrip-large", "roundtrip-fixed", "totality", "totality-fixed", "interleaver-shapes", "interleaver-random", "puncturer", "peg",
+    "roundtrip-large", "roundtrip-fixed", "totality", "totality-fixed", "interleaver-shapes", "interleaver-random", "puncturer", "peg", "peg-medium",
 ];
 const DEADLINE_S: u64 = 60;
 
